@@ -50,6 +50,10 @@ def stress_inputs():
     out.append(("right-recursive list grammar with 120 alternatives (large automaton)", "start L\nterminal T {\n" + "".join("$A%d: ()\n" % i for i in range(120)) + "}\nenum L {\nNil\n" + "".join("C%d($A%d L)\n" % (i, i) for i in range(120)) + "}\n"))
     out.append(("all nonterminals unproductive", "start S\nterminal T { $A: () }\nstruct S { s: S2 a: $A }\nstruct S2 { s: S }\n"))
     out.append(("no terminals, variant-less start", "start S\nenum S {}\nterminal T {}\n"))
+    out.append(("user identifiers equal to the generator's names and their numbered fallbacks",
+                "start S\nstruct S { a: S2 b: S3 }\nstruct S2 { n: Node }\nstruct S3\nenum Node { Node2(State) Node3 }\nenum State { State2 }\n"
+                "terminal Quasiterminal { $Eof: () $Eof2: () $Eof3: () $Quasiterminal2: () $ACTION_TABLE: () $ACTION_TABLE2: () $GOTO_TABLE: () $GOTO_TABLE2: () "
+                "$RuleKind: () $RuleKind2: () $Action: () $Action2: () $NonterminalKind: () $NonterminalKind2: () $QuasiterminalKind: () $QuasiterminalKind2: () }\n"))
     return [(name, s) for name, s in out if len(s.encode("utf-8")) <= 66000 or "KiB" in name]
 
 
@@ -79,6 +83,7 @@ def check(prop, tier, seed):
     def judge_batch(label, srcs, resps):
         for s, o in zip(srcs, resps):
             run.evaluations += 1
+            run.traces += 1
             res = o["res"]
             cls = res["t"] if res["t"] != "err" else res["err"]["v"]
             outcomes.add((label, cls))
@@ -150,6 +155,35 @@ def check(prop, tier, seed):
     rej = lexer.validate_traces(fuzz, toks, wd, run)
     for i, ev in rej:
         print("CONFORMANCE-DRIFT property=C07 tokenizer state differs from Lexer.tla at %s" % json.dumps(ev)[:200])
+    # (5) whole generate calls as behaviours of Generate.tla: which intermediates exist must be exactly what the result class
+    #     implies (stage order, first error wins) - repository fixtures, should_fail files, a slice of the fuzz inputs
+    gsrcs = list(corpus) + fuzz[:300]
+    for d, _, fs in os.walk("/repo/kiki/src/examples/should_fail"):
+        gsrcs += [open(os.path.join(d, f), encoding="utf-8").read() for f in sorted(fs) if f.endswith(".kiki")]
+    gres = common.kv("gen", [{"id": i, "src": s, "want": ["have"]} for i, s in enumerate(gsrcs)], timeout=1800)
+    tpath = os.path.join(wd, "generate_trace.ndjson")
+    kept = []
+    with open(tpath, "w") as f:
+        for s, o in zip(gsrcs, gres):
+            res = o["res"]
+            if res["t"] not in ("ok", "err") or "have" not in o:
+                continue
+            f.write(json.dumps({"ev": "run", "have": o["have"], "result": "ok" if res["t"] == "ok" else res["err"]["v"]}) + "\n")
+            kept.append(s)
+    rg = common.tlc("GenerateTrace", env={"TRACE": tpath}, workers=1, timeout=1200, deque=True, xmx="2g")
+    run.add_tlc(rg)
+    if rg.tagged_raw("TRACE-ACCEPTED"):
+        run.traces += len(kept)
+    else:
+        rej = rg.tagged_raw("TRACE-REJECTED")
+        if not rej:
+            raise ToolError("GenerateTrace neither accepted nor rejected:\n" + (rg.error or rg.out[-1500:]))
+        import re as _re
+        ln = int(_re.match(r'^<<"TRACE-REJECTED", (\d+)', rej[0]).group(1))
+        print("CONFORMANCE-DRIFT property=C07 a generate call is not a behaviour of Generate.tla (stage order / error class): %s" % rej[0][:300])
+        run.notes["generate_trace_drift"] = {"line": ln, "src": kept[ln - 1][:500] if ln - 1 < len(kept) else None}
+    rmc = common.tlc_ok("Generate", cfg="MC_Generate", workers=1, timeout=120)
+    run.add_tlc(rmc)
     # design level
     if not os.environ.get("VERIF_SKIP_MC"):
         for module, cfg, env in (("MC_Builder", "MC_BuilderFifo", {"UNIVERSE": "U1"}), ("MC_TableFill", "MC_TableFill", {"UNIVERSE": "U1" if tier == "quick" else "U2"})):
